@@ -28,7 +28,19 @@ pub type WQuery = crate::route::MyQuery;
 
 /// what every supplied entry point returns: one attribute naming it, one event, NO data
 fn via<C: CustomMsg>(tag: &str) -> StdResult<Response<C>> {
-    Ok(Response::new().add_attribute("via", tag).add_event(cosmwasm_std::Event::new("supplied").add_attribute("k", "v")))
+    // messages of every kind an Empty-typed response can carry (they are lifted to the chain's type
+    // by the *_empty steps and must come through unchanged)
+    #[allow(deprecated)]
+    let stargate: CosmosMsg<C> = CosmosMsg::Stargate { type_url: "/supplied.Msg".into(), value: Binary::from(b"sg") };
+    let any: CosmosMsg<C> = CosmosMsg::Any(AnyMsg { type_url: "/supplied.Any".into(), value: Binary::from(b"any") });
+    Ok(Response::new()
+        .add_attribute("via", tag)
+        .add_event(cosmwasm_std::Event::new("supplied").add_attribute("k", "v"))
+        .add_message(BankMsg::Send { to_address: "someone".into(), amount: vec![coin(1, "x")] })
+        .add_message(stargate)
+        .add_message(any)
+        .add_submessage(cosmwasm_std::SubMsg::reply_on_error(cosmwasm_std::IbcMsg::CloseChannel { channel_id: "channel-1".into() }, 7).with_payload(b"pl".to_vec()))
+        .add_submessage(cosmwasm_std::SubMsg::reply_always(cosmwasm_std::GovMsg::Vote { proposal_id: 1, option: cosmwasm_std::VoteOption::Yes }, 8)))
 }
 pub fn w_exec_c(_: DepsMut<WQuery>, _: Env, _: MessageInfo, _: Empty) -> StdResult<Response<WMsg>> {
     via("exec_c")
@@ -112,14 +124,23 @@ fn check_wrapper(ctx: &Ctx, ctor: &str, steps: &[&str], c: &dyn Contract<WMsg, W
     }
     // constructor entry points
     let (we, wi, wq) = if ctor == "new" { ("exec_c", "inst_c", "query_c") } else { ("exec_e", "inst_e", "query_e") };
+    // (a panic inside the wrapper is an answer too: the entry point was not kept)
+    macro_rules! guarded {
+        ($e:expr) => {
+            match catch(|| attr_via(&$e)) {
+                Ok(s) => s,
+                Err(p) => format!("PANIC {}", p),
+            }
+        };
+    }
     let checks: Vec<(&str, String, String)> = vec![
-        ("execute", attr_via(&c.execute(deps.as_mut(), env.clone(), info.clone(), empty.clone())), we.to_string()),
-        ("instantiate", attr_via(&c.instantiate(deps.as_mut(), env.clone(), info.clone(), empty.clone())), wi.to_string()),
+        ("execute", guarded!(c.execute(deps.as_mut(), env.clone(), info.clone(), empty.clone())), we.to_string()),
+        ("instantiate", guarded!(c.instantiate(deps.as_mut(), env.clone(), info.clone(), empty.clone())), wi.to_string()),
         ("query", c.query(deps.as_ref(), env.clone(), empty.clone()).map(|b| String::from_utf8_lossy(&b).to_string()).unwrap_or_else(|_| "Err".into()), format!("\"{}\"", wq)),
-        ("sudo", attr_via(&c.sudo(deps.as_mut(), env.clone(), empty.clone())), steps.iter().find(|s| s.starts_with("sudo")).map(|s| s.to_string()).unwrap_or_else(|| "Err".into())),
+        ("sudo", guarded!(c.sudo(deps.as_mut(), env.clone(), empty.clone())), steps.iter().find(|s| s.starts_with("sudo")).map(|s| s.to_string()).unwrap_or_else(|| "Err".into())),
         (
             "reply",
-            attr_via(&c.reply(
+            guarded!(c.reply(
                 deps.as_mut(),
                 env.clone(),
                 #[allow(deprecated)]
@@ -127,7 +148,7 @@ fn check_wrapper(ctx: &Ctx, ctor: &str, steps: &[&str], c: &dyn Contract<WMsg, W
             )),
             steps.iter().find(|s| s.starts_with("reply")).map(|s| s.to_string()).unwrap_or_else(|| "Err".into()),
         ),
-        ("migrate", attr_via(&c.migrate(deps.as_mut(), env.clone(), empty.clone())), steps.iter().find(|s| s.starts_with("migrate")).map(|s| s.to_string()).unwrap_or_else(|| "Err".into())),
+        ("migrate", guarded!(c.migrate(deps.as_mut(), env.clone(), empty.clone())), steps.iter().find(|s| s.starts_with("migrate")).map(|s| s.to_string()).unwrap_or_else(|| "Err".into())),
     ];
     for (what, got, want) in checks {
         n += 1;
